@@ -1428,6 +1428,9 @@ class ModelWorld(engine.World):
                                                        "why": why}))
     if hard is not None:
       ctx.reach("hard_restart_compared")
+      if not hard.get("ok") and hard.get("harness"):
+        raise engine.HarnessError("restore worker failed outside the "
+                                  "library: %s" % hard.get("exc_text"))
       if not hard.get("ok"):
         out.append(engine.Violation(
             "exception:%s@hard_restore" % hard.get("exc_type", "Unknown"),
